@@ -244,3 +244,40 @@ def _format(eng, st, args, kwargs, node):
 def _maybe_open(eng, st, args, kwargs, node):
 	"""a context manager yielding a writable/readable file object for a path, or the given file object (C18 inspects the modes)"""
 	yield st, ExtObj('file', mode=args[1] if len(args) > 1 else 'r')
+
+
+def install_csv11(LIB):
+	"""C11 variant of the csv model: rows are opaque values; csv.writer(**opts) carries the quoting obligation"""
+	from contracts.results import TRowV
+
+	def ghost_init(eng, st):
+		st.ghosts['rows11'] = SSeq(TRowV, z3.Const(fresh_name('rows0'), z3.ArraySort(I, TRowV.sort)), 0)
+
+	def csv_writer(eng, st, args, kwargs, node):
+		# Python 3.12 csv, QUOTE_MINIMAL: a field is quoted iff it contains the delimiter, the quote character or a character of
+		# the configured lineterminator; the reader ends a record at an unquoted \\r or \\n.  Every field that would break
+		# parsing must therefore be quoted by the writer under the options in use.
+		lt = kwargs.get('lineterminator', '\\r\\n')
+		quoting = kwargs.get('quoting', 0)
+		if isinstance(lt, str) and quoting == 0 and 'dialect' not in kwargs:
+			s = z3.String(fresh_name('field'))
+			has = lambda ch: z3.Contains(s, z3.StringVal(ch))
+			breaks = z3.Or(has('\\r'), has('\\n'), has(','), has('"'))
+			quoted = z3.Or(has(','), has('"'), *[has(ch) for ch in sorted(set(lt))])
+			eng.oblige(st, 'csv.writer', 'fields-that-break-parsing-are-quoted', z3.Implies(breaks, quoted))
+		yield st, ExtObj('csvwriter', opts=dict(kwargs))
+
+	def writerow(eng, st, obj, args, kwargs, node, site):
+		row = args[0]
+		if not (isinstance(row, SObj) and row.T is TRowV):
+			raise Unsupported(f'writerow of {row!r}')
+		st.ghosts['rows11'] = st.ghosts['rows11'].snoc(row)
+		yield st, None
+	LIB['__ghost_init__csv11'] = ghost_init
+	LIB['csv.writer'] = csv_writer
+	LIB['method:writerow'] = writerow
+
+
+@lib('getattr:csv.QUOTE_MINIMAL')
+def _quote_minimal(eng, st, obj, node):
+	yield st, 0
